@@ -4,13 +4,14 @@ package main
 // disagreement replays exactly from (seed, case index).
 type Rng struct{ s uint64 }
 
-// NewRng scrambles the seed first: with a state that is linear in the seed,
-// the streams of seeds k and k+1 are the same stream shifted by one draw.
+// NewRng mixes the seed through the output function first, so that seeds s and
+// s+1 give unrelated streams (adding the increment to a seed scaled by the same
+// increment would only shift the stream by one case).
 func NewRng(seed uint64) *Rng {
-	z := seed + 0x1234567
-	z = (z ^ (z >> 30)) * 0xBF58476D1CE4E5B9
-	z = (z ^ (z >> 27)) * 0x94D049BB133111EB
-	return &Rng{s: z ^ (z >> 31)}
+	r := &Rng{s: seed ^ 0x5DEECE66D}
+	r.s = r.U64() ^ 0x1234567
+	r.s = r.U64()
+	return r
 }
 
 func (r *Rng) U64() uint64 {
